@@ -442,10 +442,18 @@ func TestVerifC01(t *testing.T) {
 	rep := vfNewReport("C01", "grammar-generated SQL programs (INSERT / INSERT…SELECT / UPDATE / DELETE / REPLACE / RETURNING, parameters, transactions, nested expressions over RANDOM(), RANDOMBLOB(n) and 26 spellings of date/time functions at 'now') POSTed to /db/execute, /db/execute?transaction, /db/execute?queue, /db/request and /db/load (SQL text) of a real HTTP service over a real store; tables compared between live apply, replay after restart, snapshot install on a joining node and recovery; each program sends its non-deterministic SQL through one endpoint class; non-trivial = more than 3 rows; distinct by program text")
 	defer rep.Write()
 	c01EndpointTable(t, rep)
-	r := vfNewRng(1)
+	r := c01Rng(1)
 	classes := []string{"execute", "queued", "request", "loadtext", "execute", "request", "queued"}
 	n := vfScale(5, 56)
 	for p := 0; p < n; p++ {
 		c01Program(t, rep, r, vfScale(5, 10), classes[p%len(classes)])
 	}
+}
+
+// c01Rng decorrelates seeds: vfNewRng's streams for seeds k and k+1 are the same sequence
+// shifted by one draw, so the state is hashed once before use.
+func c01Rng(salt uint64) *vfRng {
+	r := vfNewRng(salt)
+	r.s = r.U64()*0x2545F4914F6CDD1D + salt
+	return r
 }
